@@ -40,7 +40,10 @@ Inductive case :=
   (* path.Clean *)
   | CClean (p : bytes) (obs : bytes)
   (* netutil.SplitHost: observed None = error *)
-  | CHost (hp : bytes) (obs : option bytes).
+  | CHost (hp : bytes) (obs : option bytes)
+  (* clientServerNameFromHTTP: TLS state (None = r.TLS == nil), Host header;
+     observed name (None = error) and the fromHost flag *)
+  | CHttpName (tls : option bytes) (hh : bytes) (obs : option bytes) (obs_from_host : bool).
 
 Definition eqb_res (r : N * bytes) (c : N) (id : bytes) : bool :=
   (fst r =? c) && eqb_bytes (snd r) id.
@@ -57,6 +60,10 @@ Definition case_ok (c : case) : bool :=
   | CValid l obs => valid_code l =? obs
   | CClean p obs => eqb_bytes (clean p) obs
   | CHost hp obs => eqb_option eqb_bytes (split_host hp) obs
+  | CHttpName tls hh obs fh =>
+      let r := mk_req (nil, tls, hh) in
+      eqb_option eqb_bytes (match server_name_from_http r with inr n => Some n | inl _ => None end) obs
+      && Bool.eqb (name_from_host r) fh
   end.
 
 Definition mismatches := Base.Run.mismatches case_ok.
@@ -69,4 +76,10 @@ Definition explain (c : case) : N * bytes :=
   | CValid l _ => (valid_code l, nil)
   | CClean p _ => (0, clean p)
   | CHost hp _ => match split_host hp with Some h => (0, h) | None => (1, nil) end
+  | CHttpName tls hh _ _ =>
+      let r := mk_req (nil, tls, hh) in
+      match server_name_from_http r with
+      | inr n => ((if name_from_host r then 10 else 0), n)
+      | inl e => (err_code e, nil)
+      end
   end.
